@@ -20,6 +20,8 @@ META = {
               'the accessor returns those fields',
         'R5': 'translation conditioning of the area kernels (C02.R5 restricted to signed_area_tri and the face accumulators)',
         'R4': 'grouping: a triangle contributes to the face whose plane index is the tetrahedron\'s plane_idx (C03.R6)',
+        'R7': 'the triangle kernel (C19.R5): signed_area_tri == sign((t-v0).n) * |n| with n = (v1-v0)x(v2-v0)/2 for EVERY triangle — no tolerance or special case, so the signed '
+              'triangles of a face cancel outside it at every length scale (face areas, hence closure and the divergence identity, are sums of this kernel)',
     },
     'explanation': 'Decides sign, unit length and provenance of face normals as identities of normal forms, and the weights with which triangle areas and centroids are '
                    'accumulated (coefficients on the three points are equal and sum to one after normalisation: the centroid is an affine combination, hence lies in the '
@@ -33,7 +35,7 @@ def run(ctx):
     for cfg in ctx.configs_used:
         F = ctx.facts(cfg)
         sfx = '' if cfg == 'default' else '@' + cfg
-        for fn in (r1, r2, r3, r4, r5, r6):
+        for fn in (r1, r2, r3, r4, r5, r6, r7):
             rule = 'C04.' + fn.__name__.upper()
             ctx.guarded(rule, 'evaluate' + sfx, lambda: fn(ctx, F, rule, sfx))
 
@@ -273,3 +275,8 @@ def r5(ctx, F, rule, sfx):
 def r6(ctx, F, rule, sfx):
     from . import c12
     c12.link_analysis(ctx, F, rule, sfx, prop='C04')
+
+
+def r7(ctx, F, rule, sfx):
+    from . import c19
+    c19.r5(ctx, F, rule, sfx)
